@@ -455,6 +455,41 @@ func c17StressMain(arg string) {
 		}
 	}
 	lmu.Unlock()
+	// a listener that is not being drained must not stall discovery or Close: register an unbuffered listener, let an
+	// address appear, refresh, and only then receive; then let another address appear and close without receiving
+	{
+		slow := make(chan ethtypes.Address0xHex)
+		ww.AddListener(slow)
+		mk := func(n int64) acct {
+			key := big.NewInt(n).FillBytes(make([]byte, 32))
+			kp := secp256k1.KeyPairFromBytes(key)
+			return acct{kp.Address, externalV3(r, "scrypt", []byte("pw"), key, 2, 1, 1, 0)}
+		}
+		x1 := mk(900001)
+		writeAccount(x1)
+		refreshed := make(chan struct{})
+		go func() { _ = ww.Refresh(ctx); close(refreshed) }()
+		select {
+		case <-refreshed:
+		case <-time.After(8 * time.Second):
+			problem("deadlock: Refresh did not return within 8s while a registered listener was not yet receiving")
+		}
+		select {
+		case a := <-slow:
+			if a != x1.addr {
+				problem("slow listener received %s, expected the new address %s", a.String(), x1.addr.String())
+			}
+		case <-time.After(8 * time.Second):
+			problem("a listener registered before an address appeared never received it (slow listener)")
+		}
+		writeAccount(mk(900002)) // nobody receives this one from `slow`: Close must return all the same
+		if p.Listener {
+			time.Sleep(50 * time.Millisecond)
+		} else {
+			go func() { _ = ww.Refresh(ctx) }()
+			time.Sleep(50 * time.Millisecond)
+		}
+	}
 	closed := make(chan struct{})
 	t0 := time.Now()
 	go func() { _ = ww.Close(); close(closed) }()
